@@ -83,6 +83,10 @@ func (p *parser) parse() (pq *proto.Query, err error) {
 
 	}
 
+	if p.peek().typ != itemEOF {
+		p.errorf("unexpected %s after end of query", p.peek())
+	}
+
 	pq = &proto.Query{
 		Expr:    expr,
 		GroupBy: groupBy,
@@ -432,8 +436,9 @@ func lexValue(l *lexer) stateFn {
 
 	if seenFinalQuote || r != eof {
 		l.emit(itemValue)
+		return lexText
 	}
-	return lexText
+	return l.errorf("unterminated string")
 }
 
 func lexPlaceholder(l *lexer) stateFn {
